@@ -428,6 +428,49 @@ fn overflowing_target_cases(ctx: &Ctx) {
     ctx.put("overflowing_target_builds", json!(n));
 }
 
+/// A branch target named like a `#define` that was ended again (in the same or another letter case, by `#undef`
+/// or `.undef`): whatever the tool makes of ending a #define - refuse it, or end it - the branch never goes to
+/// the 0 a #define stands for when the name is a label of the program.
+fn ended_define_cases(ctx: &Ctx) {
+    let forms = isa::forms();
+    let mut n = 0u64;
+    for form in forms.iter().filter(|f| f.mn == "rjmp" || f.mn == "rcall" || f.mn == "brne") {
+        for (def, undef, label, used) in [
+            ("#define RETRY", "#undef retry", "retry", "RETRY"),
+            ("#define RETRY", "#undef RETRY", "retry", "RETRY"),
+            ("#define retry", ".undef Retry", "Retry", "retry"),
+            ("#define Retry\n#define RETRY", "#undef retry", "retry", "RETRY"),
+            ("#define Retry\n#define RETRY", ".undef RETRY", "retry", "Retry"),
+            (".define RETRY", ".undef retry", "RETRY", "RETRY"),
+        ] {
+            for gap in [2i64, 40, 100] {
+                let src = format!("; C03 ended define case\n{}\n{}\n\tnop\n\tnop\n{}:\tnop\n{}\t{} {}\n", def, undef, label, "\tnop\n".repeat(gap as usize), form.mn, used);
+                let at = 3 + gap;
+                let d = 2 - (at + 1);
+                let Some(Opk::Rel { bits, .. }) = form.ops.last().copied() else { continue };
+                let fits = Opk::Rel { bits, f: 'k' }.legal(d);
+                let out = fw::build_str(&src);
+                ctx.eval(1);
+                n += 1;
+                ctx.distinct(fw::mix64(0x3DEF ^ gap as u64, fw::hash_str(def) ^ fw::hash_str(undef) ^ fw::hash_str(&form.name)));
+                let ok = match &out {
+                    Outcome::Panic(_) => false,
+                    Outcome::Err(_) => true,
+                    Outcome::Ok(b) => fits && b.code.get(at as usize * 2..at as usize * 2 + 2).map(|w| w == &isa::words_to_bytes(&isa::encode(form, &[d]))[..]).unwrap_or(false),
+                };
+                if !ok {
+                    ctx.violation(
+                        format!("rel/{}/ended-define/{}", form.name, if fits { "does-not-reach-the-label" } else { "out-of-range-accepted" }),
+                        format!("`{}` / `{}` / label {} / `{} {}` {} words further on: {}", def.replace('\n', " / "), undef, label, form.mn, used, gap, fw::clip(&format!("{:?}", out.brief()), 120)),
+                        json!({"source": src, "form": form.name, "flag": 0, "d": d, "fits": fits, "wrap": true, "ended_define": true, "instr_word_addr": at, "observed": out.kind()}),
+                    );
+                }
+            }
+        }
+    }
+    ctx.put("ended_define_builds", json!(n));
+}
+
 /// On a part whose flash is exactly 2^k words the program counter of the real chip wraps around, and some
 /// assemblers let rjmp/rcall "reach" a target the short way round. The statement does not: a target is
 /// reached iff target = address + 1 + d with d in the field. Every device size class, instruction near
@@ -761,6 +804,7 @@ pub fn run(ctx: &Ctx) -> i32 {
     }
     far_cases(ctx);
     overflowing_target_cases(ctx);
+    ended_define_cases(ctx);
     wrap_around_cases(ctx);
     flash_edge_cases(ctx);
     last_line_cases(ctx);
@@ -813,7 +857,7 @@ pub fn replay(ctx: &Ctx, case: &Value) -> i32 {
         let at = case["instr_word_addr"].as_u64().unwrap_or(0) as usize * 2;
         match &out {
             Outcome::Panic(_) => true,
-            Outcome::Err(_) => fits,
+            Outcome::Err(_) => fits && case["ended_define"].as_bool() != Some(true),
             Outcome::Ok(r) => !fits || r.code.get(at..at + 2).map(|w| w != &isa::words_to_bytes(&isa::encode(form, &[d]))[..]).unwrap_or(true),
         }
     } else {
